@@ -86,6 +86,8 @@ def op_outcome(op):
         raise ValueError('unknown op %r' % (k,))
     except _Abort:
         raise
+    except KeyboardInterrupt as e:
+        return ('exc', 'KeyboardInterrupt', str(e)[:80])
     except RecursionError:
         # where exactly the limit is hit (and with it the message) depends on a frame more or less
         return ('exc', 'RecursionError', '')
@@ -253,6 +255,13 @@ class Scheduler:
         self.step_cap = max(STEP_CAP, 4_000_000 * self.nthreads)
         self.deferred = 0
         self.deferred_lock = 0
+        # simulated interrupts (KeyboardInterrupt raised at the n-th traced line of a call): {'t.j': n}
+        self.abort_plan = dict(plan['config'].get('aborts') or {})
+        self.abort_n = [0] * self.nthreads
+        self.op_steps = [0] * self.nthreads
+        self.aborted = set()
+        self.cur_op = [None] * self.nthreads
+        self.prev_line = [(0, 0)] * self.nthreads
         self.locks = _parso_locks()
         self.probe = None                # called as probe(step, frame) at every counted line (profiling runs)
 
@@ -321,6 +330,19 @@ class Scheduler:
                 self.step_cap_hit = True
                 raise _Abort('step cap')
             self.left -= 1
+            if self.abort_n[me]:
+                self.op_steps[me] += 1
+                prev = self.prev_line[me]
+                self.prev_line[me] = (id(frame), frame.f_lineno)
+                if self.op_steps[me] >= self.abort_n[me] and not (prev[0] == id(frame) and frame.f_lineno <= prev[1]):
+                    # (Not on a jump back to an earlier line of the same frame: that is a loop header or the
+                    # exit of a `with` statement.  An asynchronous exception between the end of a with-body
+                    # and the call of __exit__ skips the clean-up in CPython itself - nothing a library can do
+                    # about; measured: the filter installed by warnings.catch_warnings() stayed for good.)
+                    self.abort_n[me] = 0
+                    self.aborted.add(self.cur_op[me])
+                    # (raising from the trace function switches tracing off; the PY_UNWIND hook re-arms it)
+                    raise KeyboardInterrupt('simulated interrupt')
             if self.probe is not None:
                 self.probe(self.steps, frame)
             if self.newline_p and self.spos > len(self._replayed):
@@ -387,10 +409,14 @@ class Scheduler:
                 op = ops[j]
                 if sys.gettrace() is None:
                     sys.settrace(self.global_trace)
+                self.cur_op[tid] = (tid, j)
+                self.op_steps[tid] = 0
+                self.abort_n[tid] = int(self.abort_plan.get('%d.%d' % (tid, j), 0))
                 self.in_op[tid] = True
                 out = op_outcome(op)
                 self.in_op[tid] = False
-                self.outcomes[(tid, j)] = out
+                self.abort_n[tid] = 0
+                self.outcomes[(tid, j)] = ('aborted',) if (tid, j) in self.aborted else out
         except _Abort as e:
             self.error = str(e)
         except BaseException as e:
@@ -510,6 +536,17 @@ def child_concurrent(plan, generate, seed):
         out['trace'].extend(s2.trace)
         for k, v in s2.outcomes.items():
             out['outcomes']['%d.%d#%d' % (k[0], k[1], r + 1)] = v
+    if plan['config'].get('aborts'):
+        # after a call was interrupted: every call of the plan once more, one after the other
+        rec = {}
+
+        def again():
+            for t in range(len(plan['threads'])):
+                for j in range(len(plan['threads'][t])):
+                    rec['%d.%d' % (t, j)] = op_outcome(plan['threads'][t][j])
+        _in_thread(again)
+        out['recovery'] = rec
+        out['aborted'] = sorted('%d.%d' % k for k in s.aborted)
     out['fp'] = fingerprint.fingerprint(True)
     return out
 
@@ -668,6 +705,13 @@ def make_plan(seed, tier='quick'):
            'rounds': 1 if sequential else rng.choice([1, 1, 2, 3]), 'pgen_atomic': rng.random() < 0.5,
            'burst': rng.choice([0, 0, 100, 400, 1500]) if not warm else 0,
            'newline_p': rng.choice([0.0, 0.0, 0.1, 0.3, 0.5]), 'freeze_p': rng.choice([0.0, 0.0, 0.05, 0.2])}
+    if rng.random() < 0.12:
+        # one call is interrupted (KeyboardInterrupt) at its n-th traced line; the others, and every call
+        # once more afterwards, must behave as if nothing had happened
+        t = rng.randrange(nthreads)
+        j = rng.randrange(len(threads[t]))
+        cfg['aborts'] = {'%d.%d' % (t, j): int(10 ** rng.uniform(0, 4.6))}
+        cfg['rounds'] = 1
     if cfg['burst'] and not sequential and rng.random() < 0.5:
         # ... with every thread starting on the same grammar
         v0 = threads[0][0]['v']
@@ -913,6 +957,33 @@ def run_scan(seed, tier, scan=None):
                 res['violation'] = r['violation']
                 res['digest'] = r['digest']
                 return p, res
+        # directed interrupts: the call is aborted (KeyboardInterrupt) right at / before a write event; the
+        # other thread's identical call, and both calls once more afterwards, must be unaffected
+        steps_seen = []
+        for e in events:
+            if e[0] not in steps_seen:
+                steps_seen.append(e[0])
+        cand = [(st, off) for off in (0, -1, 1) for st in steps_seen[:6]]
+        for a, (st, off) in enumerate(cand[:max(2, scan['config']['scan']['max_attempts'] // 2)]):
+            if _late() or st + off < 1:
+                break
+            p = copy.deepcopy(base)
+            p['config']['aborts'] = {'0.0': st + off}
+            p['config']['directed_at'] = ['interrupt', st + off]
+            p['switches'] = [[INF, 0]]
+            r = evaluate(p, True, seed * 131 + 50 + a, reference=ref)
+            stats['scan.directed_interrupts'] = stats.get('scan.directed_interrupts', 0) + 1
+            last_plan = p
+            if r['harness_error']:
+                res['harness_error'] = r['harness_error']
+                return p, res
+            for k in ('steps', 'switches', 'nontrivial_switches'):
+                res[k] += r.get(k, 0)
+            dig.update(r['digest'].encode())
+            if r['violation'] is not None:
+                res['violation'] = r['violation']
+                res['digest'] = r['digest']
+                return p, res
     res['digest'] = dig.hexdigest()
     return last_plan, res
 
@@ -942,6 +1013,8 @@ def evaluate(plan, generate, seed, reference=None):
         for ckey in sorted(c['outcomes']):
             key = ckey.split('#')[0]
             a, b = r['outcomes'].get(key), c['outcomes'][ckey]
+            if b == ('aborted',):
+                continue                 # the call was interrupted on purpose
             if a != b:
                 t, j = key.split('.')
                 op = plan['threads'][int(t)][int(j)]
@@ -954,6 +1027,17 @@ def evaluate(plan, generate, seed, reference=None):
             v = {'clause': 'outcome-differs', 'sig': 'outcome-missing',
                  'detail': 'calls without an outcome under the schedule: %s'
                            % sorted(set(r['outcomes']) - set(c['outcomes']))[:5]}
+    if v is None and c.get('recovery') is not None:
+        for key in sorted(c['recovery']):
+            a, b = r['outcomes'].get(key), c['recovery'][key]
+            if a != b:
+                t, j = key.split('.')
+                op = plan['threads'][int(t)][int(j)]
+                v = {'clause': 'after-interrupt-differs', 'sig': 'after-interrupt-differs:%s' % op['k'],
+                     'detail': 'after call(s) %s had been interrupted (KeyboardInterrupt at a traced line), op %s %s(%s) %r: '
+                               'sequential reference %s | now %s' % (c.get('aborted'), key, op['k'], op['v'],
+                                                                    op.get('text', '')[:60], _short(a), _short(b))}
+                break
     if v is None:
         for key in sorted(r['outcomes']):
             if r['outcomes'][key] != r['outcomes2'][key]:
@@ -1062,9 +1146,15 @@ def shrink(plan, sig, budget_runs=150, budget_s=120):
             best = cand
         else:
             break
+    if best['config'].get('aborts'):
+        cand = copy.deepcopy(best)
+        cand['config']['aborts'] = {}
+        if test(cand):
+            best = cand                  # not about the interrupt at all
+    keep_shape = bool(best['config'].get('aborts'))      # 't.j' keys of the interrupts must stay valid
     # drop whole threads
     i = 0
-    while i < len(best['threads']) and len(best['threads']) > 1:
+    while not keep_shape and i < len(best['threads']) and len(best['threads']) > 1:
         cand = copy.deepcopy(best)
         del cand['threads'][i]
         cand['config']['first'] = 0
@@ -1073,7 +1163,7 @@ def shrink(plan, sig, budget_runs=150, budget_s=120):
         else:
             i += 1
     # drop ops
-    for t in range(len(best['threads'])):
+    for t in range(len(best['threads']) if not keep_shape else 0):
         j = 0
         while j < len(best['threads'][t]) and len(best['threads'][t]) > 1:
             cand = copy.deepcopy(best)
